@@ -104,3 +104,9 @@ func lemRevisionRoundTrip(r Revision) {
 	assert_(err == nil)
 	assert_(p.N == r.N)
 }
+
+// ---- used by interfaces/policy ------------------------------------------------
+
+//@ func (*Info).Type
+//@   opaque
+//@   reads Info.SnapType Info.SideInfo
